@@ -98,6 +98,42 @@ let cmd_ctlser (_p : string) (arg : string) (_impl : string) : string * string =
         | Err -> ("SERERR", "ok")
         | Panic -> ("SERPANIC", "ok"))
      | _ -> ("COMPILE-ERR", "ok"))
+  | ["install"; n; m] ->
+    (* n two-instruction statements and m one-instruction statements; the header's length field is reported too *)
+    let nst = int_of_string n and one = int_of_string m in
+    let body = String.concat " " (List.init nst (fun i -> Printf.sprintf "(:= Report.a (+ Report.a %d))" i)
+                                  @ List.init one (fun i -> Printf.sprintf "(:= Report.a %d)" i)) in
+    let src = Printf.sprintf "(def (Report (volatile a 0))) (when true %s (report))" body in
+    let bytes = List.init (String.length src) (fun i -> byte_table.(Char.code src.[i])) in
+    let honest impl = (* C06: a produced message says its true length *)
+      match String.split_on_char ' ' impl with
+      | [l; h] when String.length l > 3 && String.sub l 0 3 = "LEN" && String.sub h 0 3 = "HDR" ->
+        if String.sub l 3 (String.length l - 3) = String.sub h 3 (String.length h - 3) then "ok"
+        else "FAIL:C06:header-length-differs-from-true-length"
+      | _ -> "ok" in
+    (match compile bytes [] with
+     | Inl (Ok (b, _)) ->
+       let ne = n_of_int (List.length b.b_events) and ni = n_of_int (List.length b.b_instrs) in
+       (match serialize_install N0 (n_of_int 9) ne ni (serialize_bin b) with
+        | Ok m -> (Printf.sprintf "LEN%d HDR%d" (List.length m) (int_of_n (le16 m (nat_of_int 2))), honest _impl)
+        | Err -> ("SERERR", honest _impl)
+        | Panic -> ("SERPANIC", honest _impl))
+     | _ -> ("COMPILE-ERR", "ok"))
+  | ["changeprog"; n] ->
+    let k = int_of_string n in
+    let regs = [| Control (N0, TNone, false); Control (n_of_int 1, TNone, true); Control (n_of_int 2, TNone, false);
+                  Implicit (n_of_int 4, TNone); Implicit (n_of_int 5, TNone) |] in
+    let fs = List.init k (fun i -> (regs.(i mod 5), n_of_int i)) in
+    let honest impl =
+      match String.split_on_char ' ' impl with
+      | [l; h] when String.length l > 3 && String.sub l 0 3 = "LEN" && String.sub h 0 3 = "HDR" ->
+        if String.sub l 3 (String.length l - 3) = String.sub h 3 (String.length h - 3) then "ok"
+        else "FAIL:C06:header-length-differs-from-true-length"
+      | _ -> "ok" in
+    (match serialize_changeprog (n_of_int 1) (n_of_int 9) (n_of_int k) fs with
+     | Ok m -> (Printf.sprintf "LEN%d HDR%d" (List.length m) (int_of_n (le16 m (nat_of_int 2))), honest _impl)
+     | Err -> ("SERERR", honest _impl)
+     | Panic -> ("SERPANIC", honest _impl))
   | _ -> ("UNPARSABLE", "-")
 
 (* ------------------------------------------------------------------------------------------
